@@ -23,6 +23,8 @@ LEVEL_NOTE = ('Trusted: Lean kernel, Darwin reference tables, reflection, AST tr
 TECHNIQUE = 'Lean 4 proof: host as parameter, reflective footprint classification + congruence lemma; table-swap differential run'
 
 from ..darwin_tables import DARWIN_ERRNO, DARWIN_SIGNALS, DARWIN_AF, DARWIN_SK, DARWIN_SOL  # noqa: E402
+# which START word a known reader looks up in which table (the call site of the known findings K2b–K2e)
+READER_POS = {'addressFamily': 0, 'socketKind': 1, 'signals': 0, 'solSocket': 1}
 ENUM_READERS = {'BSC_socket': ['addressFamily', 'socketKind'], 'BSC_socketpair': ['addressFamily', 'socketKind'],
                 'BSC_socket_delegate': ['addressFamily', 'socketKind'], 'BSC_sigaction': ['signals'],
                 'BSC_setsockopt': ['solSocket'], 'BSC_getsockopt': ['solSocket']}
@@ -153,6 +155,7 @@ def correspondence(rep, rng, tier):
             ha, da = host_texts(cc), darwin_texts(cc)
             agree = [c_ for c_, x, y in zip(cands, ha, da) if x == y and not x.startswith('raise')]
             base = dict(base, start=list(agree[0] if agree else good))
+        base = dict(base, end=[0, 3, 0, 0])          # a plain success: no errno name in the text
         for pos in range(4):
             for small in (1, 2, 3, 5):
                 for b in range(8, 32):
@@ -169,16 +172,11 @@ def correspondence(rep, rng, tier):
         sec2['distinct_nontrivial'] += 1
         reason = None
         if n in bsd_handlers and ht['errno'].get(c['end'][0]) != DARWIN_ERRNO.get(c['end'][0]):
-            reason = 'errno'
-        for t in ENUM_READERS.get(n, []):
-            # a KNOWN reader explains a difference only at a code where its table differs between the hosts: some START word
-            # that the host's table and Darwin's name differently (solSocket: a word equal to either SOL_SOCKET value)
-            if t == 'solSocket':
-                hit = any(w in (ht['solSocket'], DARWIN_SOL) for w in c['start']) and ht['solSocket'] != DARWIN_SOL
-            else:
-                hit = any(ht[t].get(w) != ref[t].get(w) for w in c['start'])
-            if hit:
-                reason = reason or t
+            # the errno table explains a difference in the RESULT part only: same call name and parameters on both hosts
+            sa, sb = D.split_call(a), D.split_call(b)
+            if sa is not None and sb is not None and sa[:2] == sb[:2]:
+                reason = 'errno'
+        reason = reason or explained_by_known_reader(n, c, ht)
         if reason is None:
             rep.add_failure('host:new-dependence:' + n, 'decoder %s renders %r on this host and %r with Darwin tables'
                             % (n, a, b), {'section': 'table-swap', 'case': c})
@@ -325,12 +323,7 @@ def targeted_search(rep, diffs, tier, ht):
         explained = None                               # a known reader meeting a code its table names differently?
         if n in bsd_handlers and pos == 4 and ht['errno'].get(code) != DARWIN_ERRNO.get(code):
             explained = 'errno'
-        for t in known_tables:
-            words = c['start']
-            if t == 'solSocket' and (ht['solSocket'] in words or DARWIN_SOL in words):
-                explained = explained or t
-            elif t in ref and any(ht[t].get(w) != ref[t].get(w) for w in words):
-                explained = explained or t
+        explained = explained or explained_by_known_reader(n, c, ht)
         if explained:
             rep.add_failure('host:' + explained, 'decoder %s: %r on this host, %r with Darwin tables' % (n, a, b),
                             {'section': 'new-dependence-search', 'case': c, 'table': explained})
@@ -343,13 +336,15 @@ def targeted_search(rep, diffs, tier, ht):
 
 
 def explained_by_known_reader(n, c, ht):
-    """A known host reader (K2) meeting a word its table names differently on this host: not a NEW dependence."""
-    ref = {'errno': DARWIN_ERRNO, 'signals': DARWIN_SIGNALS, 'addressFamily': DARWIN_AF, 'socketKind': DARWIN_SK}
-    words = c['start']
+    """A known host reader (K2b–K2e) meeting, AT ITS OWN ARGUMENT POSITION, a word its table names differently on this host:
+    not a new dependence.  A difference while that word is named alike by both hosts is not explained by the known reader."""
+    ref = {'signals': DARWIN_SIGNALS, 'addressFamily': DARWIN_AF, 'socketKind': DARWIN_SK}
     for t in ENUM_READERS.get(n, []):
-        if t == 'solSocket' and (ht['solSocket'] in words or DARWIN_SOL in words):
-            return t
-        if t in ref and any(ht[t].get(w) != ref[t].get(w) for w in words):
+        w = c['start'][READER_POS[t]]
+        if t == 'solSocket':
+            if ht['solSocket'] != DARWIN_SOL and w in (ht['solSocket'], DARWIN_SOL):
+                return t
+        elif ht[t].get(w) != ref[t].get(w):
             return t
     return None
 
